@@ -4,14 +4,16 @@ from vf.core import B, cstr, cZ, cbool, clist, cpair
 from props import chainlib as L
 
 PID = "C02"
-MODULES = ["Prelude", "C02_Model", "C02_Spec", "C02_Check"]
+MODULES = ["Prelude", "C02_Model", "C02_Spec", "C02_Check", "C02_HistModel", "C02_HistSpec", "C02_HistCheck"]
 PROPS_MODULE = "C02_Properties"
 THEOREMS = ["C02_identity_exact", "C02_denied_not_forwarded", "C02_malformed_not_forwarded",
             "C02_unnamed_not_forwarded", "C02_no_client_identity_header_survives", "C02_escape_roundtrip",
-            "C02_model_meets_spec"]
-EVAL = "C02_Check.eval"
-CLAUSES = ["agree", "identity", "denied", "malformed", "no_client_header"]
-RULE = ("distinct (client header multiset, authenticated identity, deny script) in which the client sent at least one "
+            "C02_model_meets_spec", "C02_decision_of_current_cluster"]
+EVAL = "C02_HistCheck.eval_any"
+CLAUSES = ["agree", "identity", "denied", "malformed", "no_client_header", "hist_forward_justified",
+           "hist_denied_not_forwarded"]
+RULE = ("histories: distinct op lists with an impersonating request after a delete + re-create of its cluster or after a "
+        "policy change; single requests: distinct (client header multiset, authenticated identity, deny script) in which the client sent at least one "
         "Authorization / Impersonate-* header, or the identity carries an extra attribute or a byte outside [A-Za-z0-9]")
 TRUSTED_BASE = [
     "Coq 8.16.1 kernel + vm_compute (case files); no native_compute, no extraction",
@@ -24,6 +26,11 @@ TRUSTED_BASE = [
     "(apimachinery tryUpgrade / DialForUpgrade / http.Request.Write), the tunnel after 101 is not",
 ]
 ASSUMPTIONS = [
+    "histories: the target cluster of a request is the incarnation that owns its Host NOW; a cached decision counts only if "
+    "this incarnation gave it within the TTL; the authorizer's clean-up goroutine is given time to run after a deletion "
+    "(the rig waits, bounded); a server name moving between two LIVE clusters (no stop) is NOT generated: on the unchanged "
+    "tree the previous owner's cached decisions are served for it (reported; theorem C02_decision_of_current_cluster "
+    "assumes no live move, C02_live_move_refuted keeps the witness)",
     "a response stream cut in the middle (net/http race between the server closing the request body and the outgoing "
     "transport's last read of it, seen only under CPU starvation) is re-sent by the rig up to 3 times; the last observation "
     "counts, so a reproducible cut is still reported; such retries are counted in the evidence (label rig:retried)",
@@ -57,8 +64,151 @@ def ident(name=b"alice", groups=(b"g1",), extra=()):
     return (name, list(groups), [(k, list(vs)) for k, vs in extra])
 
 
-def corpus():
+# ---------------------------------------------------------------- histories (real SAR authorizer)
+LIVE_MOVES = False      # a server name moving between two LIVE clusters: reported, pending a decision (see ASSUMPTIONS)
+H_CLUSTERS = ["a", "b"]
+H_ALIASES = ["h1", "h2"]
+H_HOSTS = ["a", "b", "h1", "h2", "h1", "zz"]
+H_REQUESTORS = ["alice", "eve"]
+H_IMPS = ["bob", "carol"]
+H_DT = [1, 10, 29, 30, 31, 100, 299, 300, 301, 1000]
+
+
+def hrule(r, i, a):
+    return {"requestor": r, "imp": i, "ans": a}
+
+
+def hist(ops, attl=300, dttl=30, tag="hist"):
+    return {"kind": "hist", "tag": tag, "attl": attl, "dttl": dttl, "ops": ops}
+
+
+def hreq(host, r="alice", i="bob"):
+    return {"op": "req", "host": host, "requestor": r, "imp": i}
+
+
+def hist_corpus():
+    A, D, E = [hrule("alice", "bob", "allow")], [hrule("alice", "bob", "deny")], [hrule("alice", "bob", "error")]
     c = []
+    # witness of seeded change C02-f: the decision cache is created by a request through an ALIAS, the cluster is
+    # deleted and re-created with an RBAC that denies: the deleted cluster's cached "allow" must not be served
+    c.append(hist([{"op": "create", "c": "a", "aliases": ["h1"], "policy": A}, hreq("h1"), hreq("h1"),
+                   {"op": "delete", "c": "a"}, {"op": "create", "c": "a", "aliases": ["h1"], "policy": D},
+                   hreq("h1"), hreq("a")], tag="recreate-via-alias"))
+    c.append(hist([{"op": "create", "c": "a", "aliases": ["h1", "h2"], "policy": A}, hreq("a"), hreq("h2"),
+                   {"op": "delete", "c": "a"}, {"op": "create", "c": "a", "aliases": ["h2"], "policy": D},
+                   hreq("a"), hreq("h2"), hreq("h1")], tag="recreate-via-name"))
+    # TTL boundaries: an allow is served from the cache while now <= t0 + attl, a deny while now <= t0 + dttl
+    c.append(hist([{"op": "create", "c": "a", "aliases": ["h1"], "policy": D}, hreq("h1"), {"op": "advance", "dt": 31},
+                   {"op": "policy", "c": "a", "policy": A}, hreq("h1"), {"op": "policy", "c": "a", "policy": D},
+                   {"op": "advance", "dt": 300}, hreq("h1"), {"op": "advance", "dt": 1}, hreq("h1"), hreq("zz")], tag="ttl"))
+    c.append(hist([{"op": "create", "c": "a", "aliases": [], "policy": E}, hreq("a"), hreq("a"),
+                   {"op": "policy", "c": "a", "policy": A}, hreq("a"), hreq("a", "eve"), hreq("a", "alice", "")], tag="error+self"))
+    c.append(hist([{"op": "create", "c": "a", "aliases": ["h1"], "policy": A}, {"op": "create", "c": "b", "aliases": ["h1", "h2"], "policy": D},
+                   hreq("h1"), hreq("h2"), {"op": "delete", "c": "a"}, hreq("h1"), {"op": "create", "c": "a", "aliases": ["h1"], "policy": D},
+                   hreq("h1"), {"op": "create", "c": "a", "aliases": [], "policy": A}, {"op": "delete", "c": "zz"}], tag="two-clusters"))
+    return c
+
+
+def rand_policy(rng):
+    out = []
+    for r in H_REQUESTORS:
+        for i in H_IMPS:
+            k = rng.below(100)
+            if k < 20:
+                continue
+            out.append(hrule(r, i, "allow" if k < 60 else ("deny" if k < 88 else "error")))
+    return out
+
+
+def gen_hist(rng):
+    """histories over two cluster names and two aliases; a python-side sketch of who owns which server name
+    only steers the choice of hosts towards live ones (the verdict never uses it)"""
+    live, keys = set(), {}
+
+    def create(c):
+        al = rng.sample(H_ALIASES, rng.below(3))
+        op = {"op": "create", "c": c, "aliases": al, "policy": rand_policy(rng)}
+        if c not in live and c not in keys:
+            live.add(c)
+            keys[c] = c
+            for a in al:
+                keys.setdefault(a, c)
+        return op
+
+    ops = [create("a")]
+    if rng.chance(1, 2):
+        ops.append(create("b"))
+    last = None
+    for _ in range(rng.randint(6, 22)):
+        k = rng.below(100)
+        if k < 55:
+            if last is not None and rng.chance(1, 3):
+                ops.append(dict(last))
+                continue
+            host = rng.choice(sorted(keys)) if (keys and rng.chance(5, 6)) else rng.choice(H_HOSTS)
+            last = hreq(host, rng.choice(H_REQUESTORS + ["alice"]), "" if rng.chance(1, 20) else rng.choice(H_IMPS + ["bob"]))
+            ops.append(dict(last))
+        elif k < 66:
+            ops.append({"op": "advance", "dt": rng.choice(H_DT)})
+        elif k < 75:
+            c = rng.choice(sorted(live)) if (live and rng.chance(4, 5)) else rng.choice(H_CLUSTERS)
+            ops.append({"op": "delete", "c": c})
+            if c in live:
+                live.discard(c)
+                for h in [h for h, v in keys.items() if v == c]:
+                    del keys[h]
+                if rng.chance(2, 3):
+                    ops.append(create(c))       # re-created under the same name
+        elif k < 84:
+            ops.append(create(rng.choice(H_CLUSTERS)))
+        elif k < 96 or not LIVE_MOVES:
+            ops.append({"op": "policy", "c": rng.choice(sorted(live)) if live else "a", "policy": rand_policy(rng)})
+        else:
+            ops.append({"op": "move", "alias": rng.choice(H_ALIASES), "c": rng.choice(H_CLUSTERS), "to": rng.choice(H_CLUSTERS)})
+    attl, dttl = rng.choice([(300, 30), (300, 30), (30, 300), (0, 0), (100, 100)])
+    return hist(ops, attl, dttl, tag="gen-hist")
+
+
+ANS = {"allow": "AAllow", "deny": "ADeny", "error": "AError"}
+
+
+def coq_policy(p):
+    return clist([cpair(cpair(cstr(r["requestor"].encode()), cstr(r["imp"].encode())), ANS[r["ans"]]) for r in (p or [])])
+
+
+def coq_hop(o):
+    k = o["op"]
+    s = lambda x: cstr((x or "").encode())
+    if k == "create":
+        return "(HCreate %s %s %s)" % (s(o["c"]), clist([s(a) for a in o.get("aliases") or []]), coq_policy(o.get("policy")))
+    if k == "delete":
+        return "(HDelete %s)" % s(o["c"])
+    if k == "policy":
+        return "(HPolicy %s %s)" % (s(o["c"]), coq_policy(o.get("policy")))
+    if k == "move":
+        return "(HMove %s %s %s)" % (s(o["alias"]), s(o["c"]), s(o["to"]))
+    if k == "advance":
+        return "(HAdvance %s)" % cZ(o["dt"])
+    if k == "req":
+        return "(HReq %s %s %s)" % (s(o["host"]), s(o["requestor"]), s(o["imp"]))
+    raise ValueError(k)
+
+
+def coq_hobs(o):
+    fwd = clist([cpair(cZ(f["inc"]), clist([cstr(v.encode("latin-1")) for v in f["imp_user"] or []])) for f in o.get("fwd") or []])
+    sar = clist([cpair(cpair(cZ(x["inc"]), cpair(cstr(x["requestor"].encode()), cstr(x["imp"].encode()))), ANS.get(x["ans"], "AError"))
+                 for x in o.get("sar") or []])
+    return "(mkHObs %s %s %s %s)" % (cbool(o.get("done", False)), cZ(o.get("status", 0)), fwd, sar)
+
+
+def coq_hist(case, obs):
+    steps = [] if L.panic_obs_hist(obs) else obs.get("steps", [])
+    return "(Hist (mkHCase %s %s %s %s))" % (cZ(case["attl"]), cZ(case["dttl"]), clist([coq_hop(o) for o in case["ops"]]),
+                                             clist([coq_hobs(o) for o in steps]))
+
+
+def corpus():
+    c = hist_corpus()
     # the defect repaired by 64b3650: other Impersonate-* headers
     c.append(L.mk_case(headers=[(b"Authorization", b"Bearer client"), (b"Impersonate-Uid", b"7"),
                                 (b"impersonate-foo", b"x")], tag="other-imp"))
@@ -226,11 +376,18 @@ def gen_case(rng):
 
 
 def generate(rng, tier, scale=1):
-    n = (380 if tier == "quick" else 6000) * scale
-    return [gen_case(rng) for _ in range(n)]
+    n = (340 if tier == "quick" else 6000) * scale
+    nh = (60 if tier == "quick" else 900) * scale
+    return [gen_case(rng) for _ in range(n)] + [gen_hist(rng) for _ in range(nh)]
 
 
 def coq_case(case, obs):
+    if case.get("kind") == "hist":
+        return coq_hist(case, obs)
+    return "(Single %s)" % coq_single(case, obs)
+
+
+def coq_single(case, obs):
     if L.panic_obs(obs):
         return ("(mkCase %s %s %s %s %s true [] (mkObs (-1) []))" %
                 (cstr(L.TOKEN), cstr(L.CLIENT_IP), L.coq_kv_headers(case["headers"]), L.coq_identity(case["user"]),
@@ -260,7 +417,20 @@ def _families(case):
     return fam
 
 
+def _hist_nontrivial(case):
+    ops = case["ops"]
+    for i, o in enumerate(ops):
+        if o["op"] in ("delete", "policy", "move"):
+            later = ops[i + 1:]
+            if o["op"] != "delete" or any(x["op"] == "create" and x["c"] == o["c"] for x in later):
+                if any(x["op"] == "req" and x["imp"] for x in later):
+                    return True
+    return False
+
+
 def nontrivial_key(case, obs):
+    if case.get("kind") == "hist":
+        return ("hist", repr(case["ops"]), case["attl"], case["dttl"]) if _hist_nontrivial(case) else None
     fam = _families(case)
     u = case["user"]
     special = bool(u["extra"]) or any(not (48 <= c <= 57 or 65 <= c <= 90 or 97 <= c <= 122)
@@ -271,6 +441,17 @@ def nontrivial_key(case, obs):
 
 
 def stats(case, obs):
+    if case.get("kind") == "hist":
+        labs = ["hist:len<=%d" % (10 * ((len(case["ops"]) + 9) // 10))]
+        steps = [] if L.panic_obs_hist(obs) else obs.get("steps", [])
+        for o, s in zip(case["ops"], steps):
+            if o["op"] == "req":
+                labs.append("hist:req->%s%s" % (s.get("status"), "" if s.get("sar") else ("(cached)" if o["imp"] and s.get("status") in (200, 403) else "")))
+            else:
+                labs.append("hist:%s%s" % (o["op"], "" if s.get("done") else "(n/a)"))
+            if s.get("note"):
+                labs.append("hist:" + s["note"])
+        return labs
     labs = ["family:" + f for f in sorted(_families(case))] or ["family:none"]
     if any(bytes(h["k"]).lower() == b"connection" and b"upgrade" in bytes(h["v"]).lower() for h in case["headers"]):
         labs.append("path:connection-upgrade")
@@ -292,6 +473,11 @@ def stats(case, obs):
 
 
 def shrink(case):
+    if case.get("kind") == "hist":
+        ops = case["ops"]
+        for i in range(len(ops)):
+            yield dict(case, ops=ops[:i] + ops[i + 1:])
+        return
     hs = case["headers"]
     for i in range(len(hs)):
         yield dict(case, headers=hs[:i] + hs[i + 1:])
@@ -307,6 +493,8 @@ def shrink(case):
 def neighbours(case, rng):
     for c in shrink(case):
         yield c
+    if case.get("kind") == "hist":
+        return
     hs = case["headers"]
     for i in range(len(hs)):
         yield dict(case, headers=hs[:i] + [hs[i]] + hs[i:])
